@@ -5,6 +5,8 @@
 set -e
 cd "$(dirname "$0")"
 export GOFLAGS=-mod=mod GOPROXY=off GOSUMDB=off GOTOOLCHAIN=local
+mkdir -p build/gocache
+export GOCACHE="$(pwd)/build/gocache"
 REPO="${VERIF_REPO:-/repo}"
 mkdir -p build/facts build/audit build/run evidence replays lean/EinoV/Gen
 ./tools/genlake.py
